@@ -20,7 +20,16 @@ fn op_tree(payload: &str) -> String {
         Ok(t) => t,
         Err(e) => return format!("{{\"error\":{}}}", dump::esc(&e)),
     };
+    // a circle with r = 1e38 is flattened into millions of arc segments (a C02 matter): such trees are
+    // reported as too big instead of being dumped
+    let nseg = count_segments(tree.root());
+    if nseg > 200_000 {
+        return format!("{{\"too_big\":{}}}", nseg);
+    }
     let d = dump::dump_tree(&tree);
+    if d.len() > 6_000_000 {
+        return format!("{{\"too_big\":{}}}", d.len());
+    }
     let svg = tree.to_string(&usvg::WriteOptions::default());
     let mut wo = usvg::WriteOptions::default();
     wo.preserve_text = true;
@@ -34,6 +43,22 @@ fn op_tree(payload: &str) -> String {
         dump::esc(&svg_pt),
         n
     )
+}
+
+fn count_segments(g: &usvg::Group) -> usize {
+    let mut n = 0usize;
+    for c in g.children() {
+        match c {
+            usvg::Node::Group(ref g) => n += count_segments(g),
+            usvg::Node::Path(ref p) => n += p.data().len(),
+            usvg::Node::Text(ref t) => n += count_segments(t.flattened()),
+            usvg::Node::Image(_) => {}
+        }
+        if n > 1_000_000 {
+            break;
+        }
+    }
+    n
 }
 
 pub fn dispatch(op: &str, _args: &[String]) -> bool {
